@@ -546,6 +546,9 @@ class C05(RunSpec):
         if d.get("kind") == "tree" and idx % 10 == 3 and not d.get("reuse") and d["gsc"]["k"] == "allstopped":
             d["levels"][0]["lsc"] = {"k": "melimit", "n": 12}
             d["levels"][1]["lsc"] = {"k": "melimit", "n": 1 + (idx // 10) % 2}
+        if d.get("reuse") and d["gsc"]["k"] == "fevals" and len(d["levels"]) >= 2 and d["sprout"].get("gen", {}).get("k") != "nbclocal":
+            # the stop-condition object (and the mechanism, and the root level) first serve a lower tree, then the full one
+            d["first_tree_root_only"] = True
         if d.get("kind") == "tree" and idx % 10 == 7 and not d.get("reuse") and d["gsc"]["k"] == "evals":
             for lv in d["levels"]:
                 if "gens" in lv:
@@ -644,6 +647,7 @@ class C05(RunSpec):
         fl += [(f"C05.metaepoch_entered_after_true_with_2_or_more_generations_configured.{e}", 1, "wind-down of an engine configured for >= 2 generations per metaepoch") for e in ("EADeme", "DEDeme", "SHADEDeme", "CMADeme")]
         fl += [("C05.precision_gsc_with_precision_far_below_the_optimum_s_magnitude", 20, "precision GSC consulted with a precision below 1e-9 * |optimum|"),
                ("C05.fevals_root_weighting_given_as_plain_string_consulted_with_child_demes", 5, "FitnessEvalLimitReached(weights='root' as a plain string) consulted on a tree with child demes")]
+        fl += [("first_tree_of_a_reuse_pair_built_from_the_root_level_only", 3, "reuse pairs whose first tree is lower than the second (same stop-condition object)")]
         fl += [("C05.targeted_runs_hit_the_chosen_consultation", 3, "pilot-then-target placements that hit the chosen consultation")]
         fl += [
             ("C05.first_true_inside_with_2_to_run", 1, "first-true inside a metaepoch with >=2 demes still to run"),
